@@ -665,8 +665,31 @@ def rewrite_slides(data: bytes, how: str) -> bytes:
     return write_members(out)
 
 
+# content types other producers declare for what python-pptx itself would declare otherwise: "image/jpg" is the one alias the library
+# documents (case variants such as "image/PNG" are loaded as generic parts by the unchanged library - the self-check tools/xformcheck.py
+# shows the snapshot changes - so they are not an equivalent spelling for this code base and are not generated)
+TYPE_ALIASES = {"image/jpeg": ["image/jpg"]}
+
+
+def alias_types(data: bytes, seed: int = 0, only=("image/jpeg",)) -> bytes:
+    """[Content_Types].xml as written by a producer that declares image types by an alias (JPEG parts as "image/jpg")."""
+    r = random.Random(seed)
+    out = []
+    for n, blob in read_members(data):
+        if n == "[Content_Types].xml":
+            root = refpkg.parse(blob)
+            for el in root:
+                if isinstance(el.tag, str) and el.get("ContentType") in only:
+                    el.set("ContentType", r.choice(TYPE_ALIASES[el.get("ContentType")]))
+            blob = etree.tostring(root, xml_declaration=True, encoding="UTF-8", standalone=True)
+        out.append((n, blob))
+    return write_members(out)
+
+
 def apply(data: bytes, x: dict) -> bytes:
     kind = x["kind"]
+    if kind == "alias_types":
+        return alias_types(data, x.get("seed", 0), tuple(x.get("only", ("image/jpeg",))))
     if kind == "rewrite_charts":
         return rewrite_charts(data, x.get("how", "reverse_idx"), x.get("seed", 0))
     if kind == "rewrite_slides":
